@@ -207,6 +207,13 @@ def corpus_fp(m, tick=None):
     shot2 = m.Shot(w2, a2, U.Degree(0), atmo=atmo); tick()
     shot2.winds = [m.Wind(U.MPS(3), U.Degree(90), U.Meter(400)), m.Wind(U.MPS(5), U.Degree(270), U.Yard(430))]; tick()
     add([scen.row_fp(r) for r in calc.fire(shot2, U.Meter(300), U.Meter(100)).trajectory])
+    # winds given NO until-distance: they end at the library's own limit, which is stated in feet (`max_distance_feet`, the
+    # default or a custom one) - not in whatever unit happens to be preferred
+    w_lim = m.Wind(U.MPS(5), U.Degree(90), max_distance_feet=1200); tick()
+    w_def = m.Wind(U.MPS(2), U.Degree(250)); tick()
+    shot3 = m.Shot(w2, a2, U.Degree(0), atmo=atmo, winds=[w_def, w_lim]); tick()
+    add([float(w.until_distance.raw_value).hex() for w in shot3.winds])
+    add([scen.row_fp(r) for r in calc.fire(shot3, U.Meter(800), U.Meter(200)).trajectory])
     return h.hexdigest()
 
 
